@@ -398,8 +398,16 @@ func (ipcp *IPCPStateMachine) processConfigureOptions(opts []LCPOption) (ack, na
 				continue
 			}
 
+			// Peer requests a specific IP but no address is assigned to this session
+			// (none configured, pool exhausted, or released on Down): there is nothing
+			// we may acknowledge or suggest.
+			if ipcp.config.PeerIP == nil {
+				reject = append(reject, opt)
+				continue
+			}
+
 			// Peer requests specific IP - check if it matches our assignment
-			if ipcp.config.PeerIP != nil && !requestedIP.Equal(ipcp.config.PeerIP) {
+			if !requestedIP.Equal(ipcp.config.PeerIP) {
 				// NAK with our assigned IP
 				nakOpt := LCPOption{
 					Type: IPCPOptIPAddress,
